@@ -117,4 +117,27 @@ Judge == IF IOEnv.PASS # "judge" THEN TRUE
                   rs == JsonDeserialize(IOEnv.RESULTS_FILE)
               IN \A i \in DOMAIN cs : LET bad == Post(cs[i], rs[i]) IN
                    bad = {} \/ PrintT("B|" \o ToString(i) \o "|" \o ToString(bad))
+
+(***************************************************************************)
+(* Part 3: what Bridge.recv_events does with ONE drained batch of messages *)
+(* (bridge.py:80-133).  A failure report anywhere in the batch must fail   *)
+(* the run, whatever else was drained with it; otherwise the events are    *)
+(* returned in order.                                                      *)
+(***************************************************************************)
+Kinds == {"published", "payload", "ack", "registration", "task_failure", "executor_failure", "transmit_failure",
+          "executor_exit", "unsupported"}
+Fatal == {"task_failure", "executor_failure", "transmit_failure", "executor_exit", "unsupported"}
+Batches == UNION {[1..n -> Kinds] : n \in 1..3}
+BatchOutcome(b) == IF \E i \in 1..Len(b) : b[i] \in Fatal THEN [raises |-> TRUE, events |-> <<>>]
+                   ELSE [raises |-> FALSE, events |-> SelectSeq(b, LAMBDA k : k \in {"published", "payload"})]
+GenerateBatches == IF IOEnv.PASS # "batches" THEN TRUE ELSE JsonSerialize(IOEnv.CASES_FILE, SetToSeq(Batches))
+JudgeBatches == IF IOEnv.PASS # "batchesj" THEN TRUE
+  ELSE LET cs == JsonDeserialize(IOEnv.JUDGE_CASES)
+           rs == JsonDeserialize(IOEnv.RESULTS_FILE)        \* [raises, events, shutdown_called]
+       IN \A i \in DOMAIN cs :
+            LET want == BatchOutcome(cs[i])
+                bad == (IF rs[i].raises = want.raises THEN {} ELSE {IF want.raises THEN "failure_report_did_not_fail_the_run" ELSE "healthy_batch_failed_the_run"})
+                  \cup (IF ~want.raises /\ rs[i].events # want.events THEN {"events_lost_or_reordered"} ELSE {})
+                  \cup (IF want.raises /\ ~rs[i].shutdown_called THEN {"failed_without_shutting_executors_down"} ELSE {})
+            IN bad = {} \/ PrintT("B|" \o ToString(i) \o "|" \o ToString(bad))
 =============================================================================
